@@ -71,15 +71,89 @@ Proof.
   - contradiction.
 Qed.
 
+(* ---------- when the twin exists, and what it is ---------- *)
+(* the twin written as a total function (proof device): every key packet replaced by its public half under a fresh
+   new-format header.  pubkey_of yields it, or refuses *)
+Definition half_keym (k : keym) : keym := {| km_fmt := 1; km_llen := 1; km_key := pub_half (km_key k) |}.
+Definition half_sub (s : subm) : subm := {| sb_key := half_keym (sb_key s); sb_sigs := sb_sigs s |}.
+Definition twin_of (t : tkey) : tkey :=
+  {| t_key := half_keym (t_key t); t_sigs := t_sigs t; t_uids := t_uids t; t_subs := map half_sub (t_subs t) |}.
+Definition opaque_key (k : keypkt) : bool := is_opaque (k_mat k).
+
+Lemma pub_keym_priv k : keym_private k = true ->
+  pub_keym k = if opaque_key (km_key k) then None else Some (half_keym k).
+Proof.
+  intros Hp. unfold pub_keym. rewrite Hp. unfold pubkey_pkt, opaque_private, opaque_key.
+  unfold keym_private in Hp. rewrite Hp. cbn [andb]. destruct (is_opaque (k_mat (km_key k))); reflexivity.
+Qed.
+
+Lemma pub_subs_priv l : Forall (fun s => keym_private (sb_key s) = true) l ->
+  pub_subs l = if existsb (fun s => opaque_key (km_key (sb_key s))) l then None else Some (map half_sub l).
+Proof.
+  induction 1 as [|s l Hs Hl IH]; [reflexivity|].
+  cbn [pub_subs existsb map]. unfold pub_sub. rewrite (pub_keym_priv _ Hs), IH.
+  destruct (opaque_key (km_key (sb_key s))); cbn [orb]; [reflexivity|].
+  destruct (existsb _ l); reflexivity.
+Qed.
+
+Lemma existsb_map_f {A B} (f : B -> bool) (g : A -> B) l : existsb f (map g l) = existsb (fun x => f (g x)) l.
+Proof. induction l as [|x l IH]; [reflexivity|]. cbn [map existsb]. rewrite IH. reflexivity. Qed.
+
+Lemma pubkey_of_priv t : all_private t ->
+  pubkey_of t = if existsb opaque_key (keys_of t) then None else Some (twin_of t).
+Proof.
+  intros [Hp Hs]. unfold pubkey_of. rewrite Hp. rewrite (pub_keym_priv _ Hp), (pub_subs_priv _ Hs).
+  unfold keys_of. cbn [existsb]. rewrite existsb_map_f.
+  destruct (opaque_key (km_key (t_key t))); cbn [orb]; [reflexivity|].
+  destruct (existsb _ (t_subs t)); reflexivity.
+Qed.
+
+(* PGPKey.pubkey of a private key refuses exactly when one of its key packets holds opaque material ... *)
+Theorem pubkey_of_none_iff t : all_private t ->
+  (pubkey_of t = None <-> exists k, In k (keys_of t) /\ is_opaque (k_mat k) = true).
+Proof.
+  intros H. rewrite (pubkey_of_priv t H). destruct (existsb opaque_key (keys_of t)) eqn:E.
+  - split; [intros _|reflexivity]. apply existsb_exists in E. exact E.
+  - split; [discriminate|]. intros X. apply existsb_exists in X. unfold opaque_key in E at 1. unfold opaque_key in X.
+    rewrite E in X. discriminate.
+Qed.
+
+(* ... and whatever it produces holds public halves only: no secret part, under any premise on the material *)
+Lemma keys_of_twin t : keys_of (twin_of t) = map pub_half (keys_of t).
+Proof. unfold keys_of, twin_of. cbn [t_key t_subs half_keym km_key map]. f_equal. rewrite !map_map. reflexivity. Qed.
+
+Theorem pubkey_of_some t p : all_private t -> pubkey_of t = Some p ->
+  p = twin_of t /\ keys_of p = map pub_half (keys_of t) /\
+  Forall (fun k => is_private k = false) (keys_of p) /\
+  Forall (fun k => is_opaque (k_mat k) = false) (keys_of t).
+Proof.
+  intros H E. rewrite (pubkey_of_priv t H) in E. destruct (existsb opaque_key (keys_of t)) eqn:X; [discriminate|].
+  inversion E; subst p. split; [reflexivity|]. split; [apply keys_of_twin|]. split.
+  - rewrite keys_of_twin. apply Forall_forall. intros k Hin. apply in_map_iff in Hin as [k0 [<- _]]. reflexivity.
+  - apply Forall_forall. intros k Hin. destruct (is_opaque (k_mat k)) eqn:O; [|reflexivity].
+    assert (existsb opaque_key (keys_of t) = true) by (apply existsb_exists; exists k; auto). congruence.
+Qed.
+
+Lemma wf_keys_not_opaque t : Forall wf_pub (keys_of t) -> existsb opaque_key (keys_of t) = false.
+Proof.
+  intros H. destruct (existsb opaque_key (keys_of t)) eqn:E; [|reflexivity].
+  apply existsb_exists in E as [k [Hin O]]. rewrite Forall_forall in H. destruct (H k Hin) as [_ [_ Hm]].
+  unfold opaque_key in O. rewrite (wf_not_opaque _ Hm) in O. discriminate.
+Qed.
+
+(* a key of supported algorithms always has its twin *)
+Theorem pubkey_of_wf t : wf_tkey t -> all_private t -> pubkey_of t = Some (twin_of t).
+Proof. intros [Hk _] Hp. rewrite (pubkey_of_priv t Hp), (wf_keys_not_opaque t Hk). reflexivity. Qed.
+
 (* ---------- the packets of the public twin ---------- *)
 Definition okp (p : pkt) : Prop := wf_pkt p /\ In (p_tag p) public_tags.
 
-Lemma ok_pub_keym k : wf_pub (km_key k) -> keym_private k = true -> okp (key_pkt (pub_keym k)).
+Lemma ok_pub_keym k : wf_pub (km_key k) -> okp (key_pkt (half_keym k)).
 Proof.
-  intros H Hp. unfold pub_keym. rewrite Hp. unfold key_pkt, okp, wf_pkt. cbn [km_fmt km_llen km_key p_fmt p_llen p_tag p_body].
-  fold (pub_packet_body (km_key k)). rewrite length_pub_body by assumption.
+  intros H. unfold key_pkt, half_keym, okp, wf_pkt. cbn [km_fmt km_llen km_key p_fmt p_llen p_tag p_body].
+  rewrite length_half_body by assumption.
   destruct H as [_ [_ Hm]]. pose proof (pubmat_len_bound _ Hm). unfold publen.
-  unfold key_tag, pubkey_pkt. cbn [k_sec k_sub].
+  unfold key_tag, pub_half. cbn [k_sec k_sub].
   destruct (k_sub (km_key k)); (split; [split; [lia|left; split; [reflexivity|lia]]|cbn; tauto]).
 Qed.
 
@@ -106,98 +180,145 @@ Proof.
   apply Forall_app. split; [apply H; left; reflexivity|]. apply IH. intros y Hy. apply H. right. exact Hy.
 Qed.
 
-Lemma keys_of_pub t : all_private t -> keys_of (pubkey_of t) = map pubkey_pkt (keys_of t).
+Lemma twin_export_ok t : wf_tkey t -> Forall okp (export_pkts (twin_of t)).
 Proof.
-  intros [Hp Hs]. unfold pubkey_of. rewrite Hp. unfold keys_of. cbn [t_key t_subs map].
-  unfold pub_keym at 1. rewrite Hp. cbn [km_key]. f_equal.
-  rewrite !map_map. apply map_ext_in. intros s Hin. rewrite Forall_forall in Hs.
-  unfold pub_sub, pub_keym. cbn [sb_key]. rewrite (Hs s Hin). reflexivity.
-Qed.
-
-Theorem pub_export_ok t : wf_tkey t -> all_private t -> Forall okp (export_pkts (pubkey_of t)).
-Proof.
-  intros [Hk [Hprim [Hsubs [Hsigs Huids]]]] [Hp Hs]. unfold pubkey_of. rewrite Hp.
+  intros [Hk [Hprim [Hsubs [Hsigs Huids]]]]. unfold twin_of.
   unfold export_pkts. cbn [t_key t_sigs t_uids t_subs].
   inversion Hk as [|k0 ks Hk0 Hks]; subst. constructor; [apply ok_pub_keym; assumption|].
   apply Forall_app. split; [apply ok_filter_sigs; exact Hsigs|].
   apply Forall_app. split.
   - apply Forall_flat_map. intros u Hu. apply ok_uid. rewrite Forall_forall in Huids. auto.
   - apply Forall_flat_map. intros s' Hin. apply in_map_iff in Hin as [s [<- Hin]].
-    unfold sub_pkts, pub_sub. cbn [sb_key sb_sigs]. rewrite Forall_forall in Hs, Hsubs, Hks.
+    unfold sub_pkts, half_sub. cbn [sb_key sb_sigs]. rewrite Forall_forall in Hsubs, Hks.
     constructor.
-    + apply ok_pub_keym; [|auto]. apply Hks. apply in_map_iff. exists s. auto.
+    + apply ok_pub_keym. apply Hks. apply in_map_iff. exists s. auto.
     + apply ok_filter_sigs. apply (Hsubs s Hin).
 Qed.
 
-(* the export exists, and the packet splitter reads it back as exactly these packets *)
+Theorem pub_export_ok t : wf_tkey t -> all_private t ->
+  exists p, pubkey_of t = Some p /\ Forall okp (export_pkts p).
+Proof. intros H Hp. exists (twin_of t). split; [apply pubkey_of_wf; assumption|apply twin_export_ok; exact H]. Qed.
+
+(* the twin exists, its export exists, and the packet splitter reads it back as exactly these packets *)
 Theorem pub_export_parse t : wf_tkey t -> all_private t ->
-  exists bs, export (pubkey_of t) = Some bs /\
-    forall fuel, (length (export_pkts (pubkey_of t)) < fuel)%nat ->
-      parse_packets fuel bs = Some (map view (export_pkts (pubkey_of t))).
+  exists p bs, pubkey_of t = Some p /\ export p = Some bs /\
+    forall fuel, (length (export_pkts p) < fuel)%nat ->
+      parse_packets fuel bs = Some (map view (export_pkts p)).
 Proof.
-  intros H Hp. unfold export. apply emit_all_parse.
-  eapply Forall_impl; [|apply pub_export_ok; assumption]. intros p [Hw _]. exact Hw.
+  intros H Hp. destruct (pub_export_ok t H Hp) as [p [E K]].
+  destruct (emit_all_parse (export_pkts p)) as [bs [Eb P]].
+  - eapply Forall_impl; [|exact K]. intros q [Hw _]. exact Hw.
+  - exists p, bs. auto.
 Qed.
 
 Theorem pub_export_tags t : wf_tkey t -> all_private t ->
-  Forall (fun p => In (fst p) public_tags) (map view (export_pkts (pubkey_of t))).
+  exists p, pubkey_of t = Some p /\ Forall (fun x => In (fst x) public_tags) (map view (export_pkts p)).
 Proof.
-  intros H Hp. apply Forall_forall. intros x Hin. apply in_map_iff in Hin as [p [<- Hin]].
-  pose proof (pub_export_ok t H Hp) as K. rewrite Forall_forall in K. destruct (K p Hin) as [_ T]. exact T.
+  intros H Hp. destruct (pub_export_ok t H Hp) as [p [E K]]. exists p. split; [exact E|].
+  apply Forall_forall. intros x Hin. apply in_map_iff in Hin as [q [<- Hin]].
+  rewrite Forall_forall in K. destruct (K q Hin) as [_ T]. exact T.
 Qed.
 
 (* no secret-key packet (tags 5, 7) and nothing else either *)
 Corollary pub_export_no_secret_tag t : wf_tkey t -> all_private t ->
-  forall x, In x (map view (export_pkts (pubkey_of t))) -> fst x <> 5 /\ fst x <> 7.
+  exists p, pubkey_of t = Some p /\ forall x, In x (map view (export_pkts p)) -> fst x <> 5 /\ fst x <> 7.
 Proof.
-  intros H Hp x Hin. pose proof (pub_export_tags t H Hp) as K. rewrite Forall_forall in K.
-  specialize (K x Hin). cbn in K. lia.
+  intros H Hp. destruct (pub_export_tags t H Hp) as [p [E K]]. exists p. split; [exact E|].
+  intros x Hin. rewrite Forall_forall in K. specialize (K x Hin). cbn in K. lia.
 Qed.
 
 (* ---------- non-interference ---------- *)
 Lemma pub_keym_same k k' : keym_private k = true -> keym_private k' = true -> same_public_keym k k' ->
   pub_keym k = pub_keym k'.
 Proof.
-  intros Hp Hp' [A [B [C D]]]. unfold pub_keym. rewrite Hp, Hp'. unfold pubkey_pkt. rewrite A, B, C, D. reflexivity.
+  intros Hp Hp' [A [B [C D]]]. rewrite (pub_keym_priv _ Hp), (pub_keym_priv _ Hp').
+  unfold opaque_key, half_keym, pub_half. rewrite A, B, C, D. reflexivity.
 Qed.
 
+Lemma pub_subs_same l l' :
+  Forall2 (fun s s' => same_public_keym (sb_key s) (sb_key s') /\ sb_sigs s = sb_sigs s') l l' ->
+  Forall (fun s => keym_private (sb_key s) = true) l -> Forall (fun s => keym_private (sb_key s) = true) l' ->
+  pub_subs l = pub_subs l'.
+Proof.
+  induction 1 as [|s s' l l' [Hks Hss] Hr IH]; intros Hs Hs'; [reflexivity|].
+  inversion Hs; subst. inversion Hs'; subst. cbn [pub_subs]. rewrite IH by assumption.
+  unfold pub_sub. rewrite (pub_keym_same (sb_key s) (sb_key s')) by assumption. rewrite Hss. reflexivity.
+Qed.
+
+(* refusal included: both keys have the SAME twin, or both have none *)
 Theorem pubkey_of_same t t' : all_private t -> all_private t' -> same_public t t' -> pubkey_of t = pubkey_of t'.
 Proof.
   intros [Hp Hs] [Hp' Hs'] [Hk [Hsig [Hu Hsub]]]. unfold pubkey_of. rewrite Hp, Hp'.
-  rewrite (pub_keym_same _ _ Hp Hp' Hk), Hsig, Hu. f_equal.
-  revert Hs Hs'. induction Hsub as [|s s' l l' [Hks Hss] Hr IH]; intros Hs Hs'; [reflexivity|].
-  inversion Hs; subst. inversion Hs'; subst. cbn [map]. rewrite IH by assumption. f_equal.
-  unfold pub_sub. rewrite Hss. f_equal. apply pub_keym_same; assumption.
+  rewrite (pub_keym_same _ _ Hp Hp' Hk), Hsig, Hu. rewrite (pub_subs_same _ _ Hsub Hs Hs'). reflexivity.
 Qed.
 
 Theorem pub_export_noninterference t t' : all_private t -> all_private t' -> same_public t t' ->
-  export (pubkey_of t) = export (pubkey_of t').
-Proof. intros. f_equal. apply pubkey_of_same; assumption. Qed.
+  pub_export t = pub_export t'.
+Proof. intros. unfold pub_export. rewrite (pubkey_of_same t t') by assumption. reflexivity. Qed.
 
 (* ---------- same identifiers ---------- *)
 Section Ids.
 Variable sha1 : bytes -> bytes.
 
 Theorem pub_same_ids t : wf_tkey t -> all_private t -> Forall (fun k => 6 + publen k < 65536) (keys_of t) ->
+  exists p, pubkey_of t = Some p /\
   (* the key packets of the twin, hashed the RFC way, give the fingerprints the private key reports *)
-  map (fun k => rfc_fingerprint sha1 (key_body k)) (keys_of (pubkey_of t)) = map (fingerprint sha1) (keys_of t) /\
+  map (fun k => rfc_fingerprint sha1 (key_body k)) (keys_of p) = map (fingerprint sha1) (keys_of t) /\
   (* the twin's own fingerprints are the same values *)
-  map (fingerprint sha1) (keys_of (pubkey_of t)) = map (fingerprint sha1) (keys_of t) /\
+  map (fingerprint sha1) (keys_of p) = map (fingerprint sha1) (keys_of t) /\
   (* identities, signatures and per-subkey signatures are the same lists *)
-  t_uids (pubkey_of t) = t_uids t /\ t_sigs (pubkey_of t) = t_sigs t /\
-  map sb_sigs (t_subs (pubkey_of t)) = map sb_sigs (t_subs t).
+  t_uids p = t_uids t /\ t_sigs p = t_sigs t /\
+  map sb_sigs (t_subs p) = map sb_sigs (t_subs t).
 Proof.
-  intros [Hk _] Hp Hb. rewrite keys_of_pub by assumption. rewrite !map_map.
+  intros Hw Hp Hb. exists (twin_of t). split; [apply pubkey_of_wf; assumption|].
+  destruct Hw as [Hk _]. rewrite keys_of_twin. rewrite !map_map.
   split; [|split].
   - apply map_ext_in. intros k Hin. rewrite Forall_forall in Hk, Hb.
-    fold (pub_packet_body k). symmetry. apply fp_eq_rfc; auto.
+    symmetry. apply fp_eq_rfc_half; auto.
   - apply map_ext_in. intros k Hin. rewrite Forall_forall in Hk.
-    symmetry. apply fp_public_only; [auto|reflexivity|reflexivity|].
-    unfold pubkey_pkt. cbn [k_mat]. destruct (Hk k Hin) as [_ [_ Hm]]. symmetry. apply pub_mat_wf. exact Hm.
-  - destruct Hp as [Hp _]. unfold pubkey_of. rewrite Hp. cbn [t_uids t_sigs t_subs].
+    symmetry. apply fp_public_only; [auto|reflexivity..].
+  - unfold twin_of. cbn [t_uids t_sigs t_subs].
     split; [reflexivity|]. split; [reflexivity|]. rewrite map_map. reflexivity.
 Qed.
+
+(* without any premise on the material: every twin that IS produced shows the fingerprints of the private key
+   (real_publen holds for supported well-formed and for opaque material; the latter never gets here) *)
+Theorem twin_fingerprints t p : all_private t -> pubkey_of t = Some p -> Forall real_publen (keys_of t) ->
+  map (fingerprint sha1) (keys_of p) = map (fingerprint sha1) (keys_of t).
+Proof.
+  intros Hp E Hr. destruct (pubkey_of_some t p Hp E) as [_ [K _]]. rewrite K, map_map.
+  apply map_ext_in. intros k Hin. rewrite Forall_forall in Hr.
+  symmetry. apply fp_public_only_real; [auto|reflexivity..].
+Qed.
 End Ids.
+
+(* ---------- the code before repair 3c1c8c6: an opaque private key got an EMPTY twin with another fingerprint ---------- *)
+Definition opaque_tkey : tkey :=
+  {| t_key := {| km_fmt := 1; km_llen := 1; km_key := opaque_sec_witness |}; t_sigs := []; t_uids := []; t_subs := [] |}.
+Theorem pubkey_of_old_refuted :
+  all_private opaque_tkey /\
+  map (fingerprint (fun x => x)) (keys_of (pubkey_of_old opaque_tkey)) <> map (fingerprint (fun x => x)) (keys_of opaque_tkey) /\
+  pubkey_of opaque_tkey = None.
+Proof.
+  split; [split; [reflexivity|constructor]|]. split; [vm_compute; discriminate|reflexivity].
+Qed.
+(* on keys of supported algorithms the old getter is the repaired one *)
+Lemma pub_keym_old_same k : wf_pub (km_key k) -> pub_keym k = Some (pub_keym_old k).
+Proof.
+  intros H. unfold pub_keym, pub_keym_old. destruct (keym_private k); [|reflexivity].
+  rewrite (pubkey_pkt_old_same _ H). reflexivity.
+Qed.
+Theorem pubkey_of_old_same t : wf_tkey t -> pubkey_of t = Some (pubkey_of_old t).
+Proof.
+  intros [Hk _]. unfold pubkey_of, pubkey_of_old. destruct (keym_private (t_key t)); [|reflexivity].
+  unfold keys_of in Hk. inversion Hk as [|k0 ks Hk0 Hks]; subst.
+  rewrite (pub_keym_old_same _ Hk0).
+  assert (E : pub_subs (t_subs t) = Some (map pub_sub_old (t_subs t))).
+  { clear Hk Hk0. induction (t_subs t) as [|s l IH]; [reflexivity|]. cbn [map] in Hks. inversion Hks; subst.
+    cbn [pub_subs map]. unfold pub_sub at 1. rewrite (pub_keym_old_same (sb_key s)) by assumption.
+    rewrite IH by assumption. reflexivity. }
+  rewrite E. reflexivity.
+Qed.
 
 (* ---------- public objects refuse private operations ---------- *)
 Theorem public_refuses_private_ops a st : In a private_actions -> ks_public st = true -> key_action a st <> Run.
@@ -253,9 +374,9 @@ Proof.
 Qed.
 
 Theorem pub_export_parse_fuel t : wf_tkey t -> all_private t ->
-  exists bs, export (pubkey_of t) = Some bs /\
-    parse_packets (S (length bs)) bs = Some (map view (export_pkts (pubkey_of t))).
+  exists p bs, pubkey_of t = Some p /\ export p = Some bs /\
+    parse_packets (S (length bs)) bs = Some (map view (export_pkts p)).
 Proof.
-  intros H Hp. destruct (pub_export_parse t H Hp) as [bs [E P]]. exists bs. split; [exact E|].
+  intros H Hp. destruct (pub_export_parse t H Hp) as [p [bs [E0 [E P]]]]. exists p, bs. split; [exact E0|]. split; [exact E|].
   apply P. pose proof (emit_all_length _ _ E). lia.
 Qed.
